@@ -75,6 +75,9 @@ func C02(ctx *Ctx) {
 					if _, isInt := arr.Elem().Underlying().(*types.Basic); !isInt {
 						continue
 					}
+					if ctx.Prog.Pkg(cpuRels[1]).Members[name] == nil {
+						continue // a table only one interpreter has: its effect is compared by `congruent`, cell by cell
+					}
 					ta, ea := byteTable(ctx, wA, cpuRels[0], name)
 					tb, eb := byteTable(ctx, wB, cpuRels[1], name)
 					nTabs++
